@@ -42,7 +42,11 @@ def shapes_s(depth: int = 2) -> st.SearchStrategy:
     sub = shapes_s(depth - 1)
     tup = st.lists(sub, min_size=1, max_size=3).map(lambda xs: ["tuple", xs])
     cond = st.builds(lambda a, b: ["cond", a, b], base, base)
-    return st.one_of(base, base, tup, cond)
+    # a conditional expression with one branch whose value is no literal (a variable, an operation on it, a call): the
+    # literal of the other branch must still be covered
+    opaque = st.sampled_from([["opaque", "a"], ["opaque", "a * 2"], ["opaque", "a[0]"], ["opaque", "helper_call(a)"], ["opaque", "a.attribute"]])
+    cond_opaque = st.one_of(st.builds(lambda o, b: ["cond", o, b], opaque, base), st.builds(lambda b, o: ["cond", b, o], base, opaque))
+    return st.one_of(base, base, tup, cond, cond_opaque)
 
 
 def bodies_s(depth: int, extended: bool) -> st.SearchStrategy:
@@ -69,8 +73,8 @@ def bodies_s(depth: int, extended: bool) -> st.SearchStrategy:
 
 def render_shape(s: list) -> str:
     k = s[0]
-    if k in {"lit", "neg"}:
-        return s[2]
+    if k in {"lit", "neg", "opaque"}:
+        return s[2] if k != "opaque" else s[1]
     if k == "tuple":
         inner = ", ".join(render_shape(x) for x in s[1])
         return f"({inner},)" if len(s[1]) == 1 else f"({inner})"
@@ -186,6 +190,8 @@ def collect_returns(body: list, tags: tuple[str, ...] = ()) -> list[tuple[list, 
 def expand(shape: list, tags: tuple[str, ...]) -> list[tuple[list, tuple[str, ...]]]:
     """Top-level conditional -> both branches; conditionals nested in tuples -> all combinations, tagged."""
     k = shape[0]
+    if k == "opaque":
+        return []  # no literal value
     if k == "cond":
         return expand(shape[1], tags) + expand(shape[2], tags)
     if k == "tuple":
